@@ -1,6 +1,6 @@
 (* C08 — Controllers are confined to declared inputs/outputs and resources they own. Statements only.
    All statements are for every declaration list, operation, target, store and time. *)
-From Verif Require Import Store Helpers DepDB Access AccessProofs.
+From Verif Require Import Store Helpers DepDB Access AccessProofs Tracker.
 Open Scope N_scope.
 
 Theorem C08_write_confined : forall now c o s,
@@ -71,3 +71,24 @@ Example C08_nonvacuous :
   snd (a_apply 1%Z c (AAddFin (1, 2, 3) [8]) s) = AOk /\ snd (a_apply 1%Z c (AAddFin (1, 2, 4) [8]) s) = ADenied /\
   snd (a_apply 1%Z c (ADestroy (1, 2, 3) None) s) = ADenied.
 Proof. vm_compute. repeat split. Qed.
+
+(* the runtime acting on the controller's behalf: CleanupOutputs of the output tracker. For every store, controller
+   name, kind and set of touched ids: a key whose content differs afterwards is now absent and the store held under it
+   a resource of the cleaned kind, owned by this controller and untouched since StartTrackingOutputs *)
+Theorem C08_cleanup_confined : forall name ns typ touched s s' ok k,
+  cleanup name ns typ touched s = (s', ok) ->
+  st_get k s' = st_get k s \/
+  (st_get k s' = None /\ exists r, In r s /\ r_key r = k /\ r_ns r = ns /\ r_typ r = typ /\ r_owner r = name /\
+                                    existsb (N.eqb (r_id r)) touched = false).
+Proof. exact cleanup_confined. Qed.
+Print Assumptions C08_cleanup_confined.
+
+(* so resources of another owner, of nobody, touched ones and other kinds are still there, unchanged *)
+Theorem C08_cleanup_spares : forall name ns typ touched s s' ok r,
+  cleanup name ns typ touched s = (s', ok) ->
+  (forall x, In x s -> r_key x = r_key r -> x = r) ->
+  st_get (r_key r) s = Some r ->
+  (r_owner r <> name \/ existsb (N.eqb (r_id r)) touched = true \/ in_kind ns typ r = false) ->
+  st_get (r_key r) s' = Some r.
+Proof. exact cleanup_spares. Qed.
+Print Assumptions C08_cleanup_spares.
